@@ -361,6 +361,13 @@ def cases(tier, rng):
                 nn = [["C", "C#", "D", "Eb", "E", "F", "F#", "G", "Ab", "A", "Bb", "B"][pc], o, 1, 64]
                 out.append(Case("tab.note", [t, nn, 60], tag="tab:note-every-tuning"))
                 out.append(Case("tab.bar", [t, ["C", 4, 4, [[4, [nn]], [4, None], [2, [nn]]]], 60], tag="tab:bar-every-tuning"))
+    pn = pn_
+    # values that are floats (dotted notes, triplets) next to whole ones, at a width that gives every entry its columns
+    for tn in (None, STD):
+        opens_ = open_pitches(tn or STD)
+        for vals in ([4 / 1.5, 8, 4, 4], [12.0, 12.0, 12.0, 2, 4], [2 / 1.5, 4], [8 / 1.5, 16, 4.0, 2.0]):
+            bar_ = ["C", 4, 4, [[v, [pn(opens_[j % len(opens_)] + 2)]] for j, v in enumerate(vals)]]
+            out.append(Case("tab.bar", [tn, bar_, 120], tag="tab:bar-float-values"))
     # notes taken from the tuning (they remember string and fret), two of them from the SAME string in one entry
     for tn in (STD, ["E-1", "A-1", "D-2", "G-2"]):
         for ents in ([[4, [[2, 0], [2, 2]]], [4, None], [2, [[1, 3]]]], [[2, [[0, 0], [0, 5], [3, 2]]], [2, [[1, 0], [2, 0]]]],
